@@ -189,7 +189,9 @@ def run(ctx):
     K = 5 * H if q else 12 * H
     ljobs = [{"id": "l%04d" % i, "mode": "lifecycle", "files": {"main.abra": src}, "std": std, "histories": HISTORIES, "cycles": K}
              for i, (name, src, std) in enumerate(progs)]
+    ctx.ex.count_alloc = True
     lres = ctx.run(ljobs, threads=1, job_timeout_s=600)
+    ctx.ex.count_alloc = False
     ok_b = 0
     stat_tot = {}
     runtimes = 0
